@@ -14,6 +14,7 @@ from verif import core, eng, cmp
 LEVEL = "exploration"
 GATES = {"set_current_registry", "get_current_registry", "_new_ds_name", "_new_dc_name", "set_representation", "check_value", "create_ast", "visit_Start",
          "transpile", "execute_queries", "fetch_result", "set_decimal_config", "reset"}
+LINE_GATES = {"visit_Start", "check_value"}
 
 
 # ---------------------------------------------------------------- calls
@@ -33,6 +34,8 @@ CALLS = {
     "run_viral_min": ("run", dict(script=VP_MIN + "R <- DS_1 + DS_2;")),
     "run_fmt_vtl": ("run", dict(script=VP_MAX + "R <- DS_1 [calc x := Me_1 * 2];", time_period_output_format="vtl")),
     "run_fmt_reporting": ("run", dict(script=VP_MAX + "R <- DS_1 [calc x := Me_1 * 3];", time_period_output_format="sdmx_reporting")),
+    "run_cast_vtl": ("run", dict(script=VP_MAX + 'R <- DS_1 [calc s := cast(Id_p, string)]; sc <- cast(cast("2020Q1", time_period), string);', time_period_output_format="vtl")),
+    "run_cast_reporting": ("run", dict(script=VP_MAX + 'R <- DS_1 [calc s := cast(Id_p, string)]; sc <- cast(cast("2020Q1", time_period), string);', time_period_output_format="sdmx_reporting")),
     "run_fails_A": ("run", dict(script=VP_MAX + "Out_A <- DS_1 [calc x := Me_9 * 2];")),
     "run_fails_B": ("run", dict(script=VP_MAX + "Out_B <- DS_2 [keep Me_7];")),
     "sa_viral_max": ("semantic_analysis", dict(script=VP_MAX + "R <- sum(DS_1 group by Id_1);")),
@@ -63,6 +66,21 @@ def do_call(name):
         return ("ok", repr(astnorm.norm(create_ast(**kw))))
     except Exception as e:  # noqa
         return ("err", type(e).__name__, str(e)[:300])
+
+
+def diff_kind(a, b):
+    """Root-cause oriented class of a difference between the outcome alone (a) and the concurrent outcome (b)."""
+    import re
+    strip = lambda m: re.sub(r"Please check transformation with output Dataset\s*\w*", "", str(m))
+    if a[0] == "err" and b[0] == "err":
+        if a[1] == b[1] and strip(a[2:]) == strip(b[2:]):
+            return "error_output_name"
+        return "other_error"
+    if a[0] != b[0]:
+        txt = str(b[1:] if b[0] == "err" else a[1:])
+        return "viral_rules" if "iral" in txt else "outcome_changes"
+    txt = str(same(a, b))
+    return "viral_attribute_value" if "At_1" in txt else ("period_format" if ("Id_p" in txt or "Q1" in txt or "sc" in txt) else "result_value")
 
 
 def same(a, b):
@@ -98,6 +116,7 @@ class Sched:
                 self.cv.wait()
             self.turn = None
             self.state[i] = "running"
+            self.cv.notify_all()
 
     def finish(self, i):
         with self.cv:
@@ -110,9 +129,15 @@ class Sched:
         `stall` seconds = stuck: the caller inspects the thread stacks to tell an engine deadlock from a harness problem."""
         last_progress = time.time()
         seen = (0, tuple(self.state))
+        lagging = set()
         while True:
             with self.cv:
-                self.cv.wait_for(lambda: all(s in ("gate", "done") for s in self.state), timeout=2.0)
+                # a thread that failed to reach a gate within 0.4 s (blocked on an engine lock held by a gated thread, or inside
+                # a long native call) is "lagging": it is not waited for again until it shows up at a gate
+                lagging -= {i for i in lagging if self.state[i] in ("gate", "done")}
+                ok = self.cv.wait_for(lambda: all(s in ("gate", "done") for i, s in enumerate(self.state) if i not in lagging), timeout=0.4)
+                if not ok:
+                    lagging |= {i for i, s in enumerate(self.state) if s not in ("gate", "done")}
                 if all(s == "done" for s in self.state):
                     return
                 now = (len(self.trace), tuple(self.state))
@@ -132,14 +157,28 @@ class Sched:
                 self.cv.wait_for(lambda: self.turn is None, timeout=5.0)
 
 
+_WARM = set()
+
+
 def forced(names, picks):
     """Run the calls `names` in threads under the gate scheduler with the given pick list. -> (results, trace, deadlock)"""
+    for n in names:   # first use of an API in a process (lazy imports, parser start-up) happens untraced
+        if CALLS[n][0] not in _WARM:
+            _WARM.add(CALLS[n][0])
+            do_call(n)
     sched = Sched(len(names), picks)
     results = [None] * len(names)
+
+    def line_tracer(frame, event, arg):
+        if event == "line":
+            sched.gate("%s:L%d" % (frame.f_code.co_name, frame.f_lineno))
+        return line_tracer
 
     def tracer(frame, event, arg):
         if event == "call" and frame.f_code.co_name in GATES and "vtlengine" in frame.f_code.co_filename:
             sched.gate(frame.f_code.co_name)
+            if frame.f_code.co_name in LINE_GATES:
+                return line_tracer   # statement-level gates inside the functions that write process-wide state
         return None
 
     def worker(i):
@@ -201,8 +240,7 @@ def work_forced(pairs, pick_lists, alone):
             for n, r in zip(names, res):
                 d = same(alone[n], r) if r is not None else "no result"
                 if d:
-                    others = sorted(set(STATE.get(m, "other") for m in names))
-                    part.fail("forced:%s:%s" % (STATE.get(n, "other"), "+".join(others)), dict(case, call=n), "%s under a forced interleaving with %s: %s" % (n, [m for m in names if m != n], d))
+                    part.fail("forced:%s" % diff_kind(alone[n], r), dict(case, call=n), "%s under a forced interleaving with %s: %s" % (n, [m for m in names if m != n], d))
     return part
 
 
@@ -246,7 +284,7 @@ def work_stress(seed, iters, alone):
             for n, r in zip(batch, out):
                 d = same(alone[n], r) if r is not None else "no result"
                 if d:
-                    part.fail("stress:%s" % STATE.get(n, "other"), dict(batch=batch, call=n), "%s in a batch of 8 concurrent calls: %s" % (n, d))
+                    part.fail("stress:%s" % diff_kind(alone[n], r), dict(batch=batch, call=n), "%s in a batch of 8 concurrent calls: %s" % (n, d))
     finally:
         sys.setswitchinterval(old)
     return part
@@ -258,20 +296,30 @@ def _dispatch(fname, args):
 
 def run(ctx):
     warnings.filterwarnings("ignore")
-    ctx.rule = ("cases: (set of 2-3 API calls, schedule); forced schedules = Hypothesis pick lists consumed by a gate scheduler at 13 engine functions (all pick lists of length <=4 over {0,1} for 6 designed pairs are enumerated, "
+    ctx.rule = ("cases: (set of 2-3 API calls, schedule); forced schedules = Hypothesis pick lists consumed by a gate scheduler at 13 engine functions and at every statement of Interpreter.visit_Start / TimePeriodRepresentation.check_value (all pick lists of length <=4 over {0,1} for 6 designed pairs are enumerated, "
                 "others sampled), stress = batches of 8 random calls with a 1 microsecond switch interval; oracle = the call's outcome when executed alone; non-trivial = schedule with a thread switch between a write of shared "
                 "state (registry / period representation) and a dependent step of another thread (stress: batch with >=2 different calls)")
     alone = {n: do_call(n) for n in sorted(CALLS)}
     for n, r in alone.items():
         if r[0] == "err" and n not in ("run_fails_A", "run_fails_B", "sa_fails", "create_ast_bad", "run_no_viral_rule"):
             raise core.HarnessError("reference call %s fails alone: %r" % (n, r))
-    pairs = [("run_viral_max", "run_viral_min"), ("run_fmt_vtl", "run_fmt_reporting"), ("run_fails_A", "run_fails_B"), ("run_viral_max", "prettify_1"), ("sa_viral_max", "run_viral_min"), ("create_ast_1", "prettify_2")]
+    pairs = [("run_viral_max", "run_viral_min"), ("run_fmt_vtl", "run_fmt_reporting"), ("run_cast_vtl", "run_cast_reporting"), ("run_fails_A", "run_fails_B"), ("run_viral_max", "prettify_1"), ("sa_viral_max", "run_viral_min"), ("create_ast_1", "prettify_2")]
     # every schedule with one context switch and back: thread a runs k gates, thread b runs to completion, a resumes (both roles), plus short alternations
-    ks = range(0, 36, 3) if ctx.quick else range(0, 48)
-    pick_lists = [[0] * k + [1] * 80 for k in ks] + [[1] * k + [0] * 80 for k in ks] + [list(p) for L in ((2, 4) if ctx.quick else range(1, 7)) for p in itertools.product((0, 1), repeat=L)]
-    jobs = [("work_forced", ([p], pick_lists, alone)) for p in pairs]
-    jobs += [("work_forced_generated", (ctx.seed * 1009 + k, 8 if ctx.quick else 150, alone)) for k in range(5)]
-    jobs += [("work_stress", (ctx.seed * 1009 + k, 6 if ctx.quick else 50, alone)) for k in range(5)]
+    # (k ranges over all gate counts of the call: measured by running it alone under the scheduler; quick = 24 values of k per role, rotated by the seed)
+    jobs = []
+    for a, b in pairs:
+        lists = [list(p) for L in ((2, 4) if ctx.quick else range(1, 7)) for p in itertools.product((0, 1), repeat=L)]
+        for first, role in ((a, 0), (b, 1)):
+            g = len(forced([first], [])[1])
+            ks = list(range(0, g + 1))
+            if ctx.quick and len(ks) > 24:
+                step = len(ks) / 24.0
+                ks = sorted({ks[int((i * step + ctx.seed) % len(ks))] for i in range(24)})
+            lists += [[role] * k + [1 - role] * 400 for k in ks]
+        for c in range(0, len(lists), 6):
+            jobs.append(("work_forced", ([(a, b)], lists[c:c + 6], alone)))
+    jobs += [("work_forced_generated", (ctx.seed * 1009 + k, 25 if ctx.quick else 300, alone)) for k in range(5)]
+    jobs += [("work_stress", (ctx.seed * 1009 + k, 15 if ctx.quick else 100, alone)) for k in range(5)]
     ctx.merge(core.pmap("checks.c17", "_dispatch", jobs, procs=16))
     ctx.assumptions = ["the scheduler owns the interleaving only at Python function boundaries of 13 engine functions; bytecode-level and native (DuckDB / pyarrow) interleavings are not controlled",
                        "the native parser's use-after-free is modelled by the parser stand-in (a tree of an earlier parse raises when touched), not executed"]
